@@ -124,21 +124,6 @@ def classify_ball(cam, R, view_angles, vis_dist, centre, radius, ang_margin, rad
 
 
 # ----------------------------------------------------------------------------------------
-# the defect model used ONLY to name a failure (never to decide pass/fail)
-# ----------------------------------------------------------------------------------------
-def rotate_before_subtract_prediction(cam, R, view_angles, vis_dist, p):
-    """What a viewer would answer for a point target (no occluders) if it applied its inverse
-    rotation to the *global* target position before subtracting its own, unrotated, position."""
-    p = np.asarray(p, float)
-    if np.linalg.norm(p - cam) > vis_dist:
-        return False
-    local = R.T @ p - cam
-    d, az, alt = sph(local)
-    hb, hh, vb, hv = norm_angles(view_angles)
-    return abs(az) <= view_angles[0] / 2 and abs(alt) <= view_angles[1] / 2
-
-
-# ----------------------------------------------------------------------------------------
 # meshes and sight lines
 # ----------------------------------------------------------------------------------------
 def place_mesh(unit_vertices, dims, R, position):
@@ -165,28 +150,47 @@ def box_mesh(dims, R, position):
     return v @ R.T + np.asarray(position, float), f
 
 
+def _cross(a, b):
+    out = np.empty(np.broadcast(a, b).shape)
+    out[..., 0] = a[..., 1] * b[..., 2] - a[..., 2] * b[..., 1]
+    out[..., 1] = a[..., 2] * b[..., 0] - a[..., 0] * b[..., 2]
+    out[..., 2] = a[..., 0] * b[..., 1] - a[..., 1] * b[..., 0]
+    return out
+
+
+def _hit_params(origin, ends, vertices, faces, eps=1e-12):
+    """Moller-Trumbore for K segments origin->ends[k] against all F triangles at once.
+    Returns a (K, F) array of segment parameters t (nan where the supporting line of the
+    segment misses the triangle)."""
+    o = np.asarray(origin, float)
+    ends = np.atleast_2d(np.asarray(ends, float))
+    vertices = np.asarray(vertices, float)
+    d = (ends - o)[:, None, :]  # K,1,3
+    v0 = vertices[faces[:, 0]][None, :, :]  # 1,F,3
+    e1 = vertices[faces[:, 1]][None, :, :] - v0
+    e2 = vertices[faces[:, 2]][None, :, :] - v0
+    pv = _cross(d, e2)  # K,F,3
+    det = (e1 * pv).sum(-1)
+    ok = np.abs(det) > eps
+    inv = np.where(ok, 1.0 / np.where(ok, det, 1.0), 0.0)
+    tv = o - v0  # 1,F,3
+    u = (tv * pv).sum(-1) * inv
+    qv = _cross(tv, e1)  # 1,F,3
+    w = (qv * d).sum(-1) * inv
+    t = (e2 * qv).sum(-1) * inv
+    hit = ok & (u >= 0) & (w >= 0) & (u + w <= 1) & (t >= 0)
+    return np.where(hit, t, np.nan)
+
+
 def segment_hits(origin, end, vertices, faces, t_max=1.0, eps=1e-12):
     """Smallest parameter t in [0, t_max] at which origin + t (end-origin) meets a triangle of
     the mesh (Moller-Trumbore on all faces at once), or None."""
-    o = np.asarray(origin, float)
-    dvec = np.asarray(end, float) - o
-    v0 = vertices[faces[:, 0]]
-    e1 = vertices[faces[:, 1]] - v0
-    e2 = vertices[faces[:, 2]] - v0
-    pv = np.cross(dvec, e2)
-    det = np.einsum("ij,ij->i", e1, pv)
-    ok = np.abs(det) > eps
-    inv = np.zeros_like(det)
-    inv[ok] = 1.0 / det[ok]
-    tv = o - v0
-    u = np.einsum("ij,ij->i", tv, pv) * inv
-    qv = np.cross(tv, e1)
-    w = np.einsum("ij,j->i", qv, dvec) * inv
-    t = np.einsum("ij,ij->i", e2, qv) * inv
-    hit = ok & (u >= 0) & (w >= 0) & (u + w <= 1) & (t >= 0) & (t <= t_max)
-    if not hit.any():
+    t = _hit_params(origin, [end], vertices, faces, eps)[0]
+    t = t[~np.isnan(t)]
+    t = t[t <= t_max]
+    if len(t) == 0:
         return None
-    return float(t[hit].min())
+    return float(t.min())
 
 
 BLOCKED, CLEAR, GRAZING = "blocked", "clear", "grazing"
@@ -197,39 +201,30 @@ def sightline(origin, target, meshes, delta=0.06, stretch=0.06):
     BLOCKED if the segment and all its perturbations (end point moved by +-delta along each
     axis, segment shortened by `stretch`) meet some mesh; CLEAR if the segment and all
     perturbations (segment lengthened by `stretch`) miss every mesh; else GRAZING."""
-    o = np.asarray(origin, float)
     t = np.asarray(target, float)
-    ends = [t]
+    ends = np.repeat(t[None, :], 7, axis=0)
     for ax in range(3):
-        for s in (-delta, delta):
-            e = t.copy()
-            e[ax] += s
-            ends.append(e)
-    any_hit_long = False
-    all_hit_short = True
-    for e in ends:
-        hit_long = False
-        hit_short = False
-        for v, f in meshes:
-            if segment_hits(o, e, v, f, t_max=1.0 + stretch) is not None:
-                hit_long = True
-            if segment_hits(o, e, v, f, t_max=1.0 - stretch) is not None:
-                hit_short = True
-        any_hit_long = any_hit_long or hit_long
-        all_hit_short = all_hit_short and hit_short
-    if all_hit_short:
+        ends[1 + 2 * ax, ax] -= delta
+        ends[2 + 2 * ax, ax] += delta
+    hit_long = np.zeros(7, bool)
+    hit_short = np.zeros(7, bool)
+    for v, f in meshes:
+        tt = _hit_params(origin, ends, v, f)
+        with np.errstate(invalid="ignore"):
+            hit_long |= (tt <= 1.0 + stretch).any(axis=1)
+            hit_short |= (tt <= 1.0 - stretch).any(axis=1)
+    if hit_short.all():
         return BLOCKED
-    if not any_hit_long:
+    if not hit_long.any():
         return CLEAR
     return GRAZING
 
 
 def in_shadow_of(origin, points, vertices, faces, stretch=0.06):
     """True iff every segment origin->p (p in points) meets the mesh before 1-stretch."""
-    for p in points:
-        if segment_hits(origin, p, vertices, faces, t_max=1.0 - stretch) is None:
-            return False
-    return True
+    tt = _hit_params(origin, np.asarray(points, float), vertices, faces)
+    with np.errstate(invalid="ignore"):
+        return bool((tt <= 1.0 - stretch).any(axis=1).all())
 
 
 def wholly_behind(origin, target_points, occ_vertices, margin):
